@@ -1739,6 +1739,12 @@ bool GennaroJareckiKrawczykRabinNTS::Verify
 
 	try
 	{
+		// check the size of $c$ and the range of $s$
+		if ((mpz_sgn(c) < 0) ||
+			(mpz_sizeinbase(c, 2L) > (tmcg_mpz_shash_len() * 8)))
+			throw false;
+		if ((mpz_sgn(s) < 0) || (mpz_cmp(s, q) >= 0))
+			throw false;
 		// 1. Compute $r = g^s y^{-c} \bmod p$
 		tmcg_mpz_fpowm(fpowm_table_g, r, g, s, p);
 		mpz_powm(foo, y, c, p);
